@@ -83,3 +83,7 @@ func TamperDealerShare(m *airgapped.Machine, round string, victim int) (err erro
 	plain.SecShare.V = plain.SecShare.V.Clone().Add(plain.SecShare.V, plain.SecShare.V.Clone().One())
 	return nil
 }
+
+// CloseColdDB closes the key store (LevelDB handle) of a running machine: every later read or write
+// of the machine fails the way it does when the operator's storage medium goes away under it.
+func CloseColdDB(m *airgapped.Machine) { closeDBField(m, "db") }
